@@ -95,9 +95,12 @@ def event(u, tid, op, sigs, thunk, fl=None, plain=True, pure=False, case=None):
     return e
 
 
-def law_event(u, tid, law, thunks, withprov=True, case=None):
+def law_event(u, tid, law, thunks, cmp='all', case=None, pre='none', ins=()):
+    """several REAL computations the property says are equal; cmp: ps | all | starnames | subseq | params"""
+    fns = _Fns(u)
     results = [outcome(u, t)[0] for t in thunks]
-    return {'tid': tid, 'op': 'law', 'law': law, 'results': results, 'withprov': withprov, 'case': case}
+    return {'tid': tid, 'op': 'law', 'law': law, 'results': results, 'cmp': cmp, 'pre': pre,
+            'ins': [absig.project(s, fns) for s in ins], 'case': case}
 
 
 # ---------------------------------------------------------------------------------------------------
@@ -117,6 +120,7 @@ def _shard_job(args):
     gen = _GEN
     use_repo()
     path = os.path.join(scratch_dir, 'shard-%d.ndjson' % shard)
+    import hashlib
     n = 0
     index = {}
     samples = []
@@ -126,16 +130,24 @@ def _shard_job(args):
             case = e.pop('case', None)
             f.write(json.dumps(e, separators=(',', ':')) + '\n')
             index[e['tid']] = case
-            if n < 2:
-                samples.append({k: e[k] for k in ('tid', 'op', 'flags', 'out') if k in e})
             if e['op'] == 'law':
-                nontrivial.add(json.dumps(e['results'], sort_keys=True))
+                key = json.dumps([e['law'], case], sort_keys=True, default=repr)
+                trivial = False
+                outs = [r['tag'] if r['tag'] != 'sig' else absig.sig_str(r['ps']) for r in e['results']]
+                text = '%s %s -> %s' % (e['law'], describe_case(case) if isinstance(case, dict) and 'ins' in case else json.dumps(case, default=repr), outs)
             else:
-                nontrivial.add(json.dumps([e['op'], [i['ps'] for i in e['ins']], e['flags']], sort_keys=True))
+                key = json.dumps([e['op'], [i['ps'] for i in e['ins']], e['flags']], sort_keys=True)
+                trivial = all(not i['ps'] for i in e['ins'])
+                text = '%s -> %s' % (describe_case(case) if case else e['tid'],
+                                     absig.sig_str(e['out']['ps']) if e['out']['tag'] == 'sig' else e['out']['tag'])
+            if not trivial:
+                nontrivial.add(int(hashlib.blake2b(key.encode(), digest_size=8).hexdigest(), 16))
+                if len(samples) < 2 and n % 97 == 13:
+                    samples.append({'tid': e['tid'], 'case': text})
             n += 1
     if n == 0:
         os.unlink(path)
-        return {'n': 0, 'fails': [], 'drift': [], 'samples': [], 'nontrivial': 0, 'err': None, 'states': 0, 'gen': 0, 'wall': 0}
+        return {'n': 0, 'fails': [], 'drift': [], 'samples': [], 'nontrivial': set(), 'err': None, 'states': 0, 'gen': 0, 'wall': 0}
 
     class S:  # minimal scratch for run_tlc
         def sub(self, name):
@@ -154,7 +166,7 @@ def _shard_job(args):
             os.unlink(path + '.cfg')
         except OSError:
             pass
-    return {'n': n, 'fails': fails, 'drift': drift, 'samples': samples, 'nontrivial': len(nontrivial), 'err': err,
+    return {'n': n, 'fails': fails, 'drift': drift, 'samples': samples, 'nontrivial': nontrivial, 'err': err,
             'states': r.distinct, 'gen': r.generated, 'wall': r.wall}
 
 
@@ -171,7 +183,10 @@ def run_trace_leg(check, scratch, name, gen, want, nshards=None, classify=None, 
     total = sum(r['n'] for r in results)
     check.cov['evaluations'] += total
     check.cov['traces_validated_against_impl'] += total
-    check.cov['distinct_nontrivial'] += sum(r['nontrivial'] for r in results)
+    seen = check.__dict__.setdefault('_distinct', set())
+    for r in results:
+        seen |= r['nontrivial']
+    check.cov['distinct_nontrivial'] = len(seen)
     ndrift = 0
     for r in results:
         if r['err']:
